@@ -646,3 +646,82 @@ func truthAlts(v ssa.Value, depth int) (alts [][]Guard, ok bool) {
 	}
 	return [][]Guard{{Guard{Cond: v, Pol: true}}}, true
 }
+
+// reachingStore: for a load of a multi-store variable cell, the unique store that reaches it
+// (the latest store that dominates the load, provided no other store can intervene).
+func reachingStore(load *ssa.UnOp) *ssa.Store {
+	cell := cellOf(load.X)
+	if cell == nil {
+		return nil
+	}
+	var doms []*ssa.Store
+	var all []*ssa.Store
+	for _, s := range storesTo(cell) {
+		if s.in.Parent() != load.Parent() {
+			return nil // written from a closure: order unknown
+		}
+		all = append(all, s.in)
+		if s.in.Block() == load.Block() {
+			if instrIndex(s.in) < instrIndex(load) {
+				doms = append(doms, s.in)
+			}
+		} else if s.in.Block().Dominates(load.Block()) {
+			doms = append(doms, s.in)
+		}
+	}
+	if len(doms) == 0 {
+		return nil
+	}
+	best := doms[0]
+	for _, s := range doms[1:] {
+		if s.Block() == best.Block() {
+			if instrIndex(s) > instrIndex(best) {
+				best = s
+			}
+		} else if best.Block().Dominates(s.Block()) {
+			best = s
+		}
+	}
+	for _, s := range all {
+		if s == best {
+			continue
+		}
+		isDom := false
+		for _, d := range doms {
+			if d == s {
+				isDom = true
+			}
+		}
+		if isDom {
+			continue // an earlier dominating store, overwritten by best
+		}
+		// a non-dominating store that may execute after best and before the load
+		if s.Block() == load.Block() && instrIndex(s) > instrIndex(load) && !inLoopBlock(load.Block()) {
+			continue // later in the same straight-line block
+		}
+		if load.Block().Dominates(s.Block()) && s.Block() != load.Block() && !reachableFrom(s.Block(), nil)[load.Block()] {
+			continue // strictly after the load
+		}
+		if reachableFrom(best.Block(), nil)[s.Block()] && reachableFrom(s.Block(), nil)[load.Block()] {
+			return nil
+		}
+	}
+	return best
+}
+
+// derefFlow is deref that also resolves loads of multi-store cells flow-sensitively.
+func derefFlow(v ssa.Value) ssa.Value {
+	for i := 0; i < 8; i++ {
+		v = deref(v)
+		u, ok := v.(*ssa.UnOp)
+		if !ok || u.Op != token.MUL {
+			return v
+		}
+		st := reachingStore(u)
+		if st == nil {
+			return v
+		}
+		v = st.Val
+	}
+	return v
+}
